@@ -193,7 +193,7 @@ func init() {
 		Jobs: replicaJobs("C03",
 			[]map[string]string{
 				{"leader": "staking", "plans": c03plans, "ops": "70"},
-				{"leader": "staking", "plans": "restart1,restart2,crash1", "ops": "120", "stores": "1"},
+				{"leader": "staking", "plans": "restart1,restart2,crash1", "ops": "60", "stores": "1"},
 				{"leader": "didreg", "plans": "restart1,crash1", "ops": "60"},
 				{"leader": "authz", "plans": "restart1,crash2", "rounds": "1", "relayers": "1"},
 			}, c03thorough),
